@@ -269,3 +269,26 @@ impl Var {
         Ok(())
     }
 }
+
+#[cfg(feature = "verif")]
+impl Var {
+    pub fn verif_dump(&self) -> String {
+        let mut vars: Vec<String> = self
+            .vars
+            .iter()
+            .map(|(k, v)| format!("{}={:?}", k, v))
+            .collect();
+        vars.sort();
+        let mut dims: Vec<String> = self
+            .dims
+            .iter()
+            .map(|(k, v)| format!("{}={:?}", k, v))
+            .collect();
+        dims.sort();
+        format!("{:?}{:?}{:?}", vars, dims, self.types)
+    }
+
+    pub fn verif_len(&self) -> usize {
+        self.vars.len()
+    }
+}
